@@ -78,6 +78,7 @@ def c18_joint(op, impl, model, stats):
 
 PROPS = {
     "C01": {
+        "alt_config": {"ops": ["rt"], "stride": 3},
         "gens": ["C01"],
         "rule": "SCALE LADDER (sizes 15..1025 around every power of two; thorough to 4097): nesting depth for each wrapper kind and mixed, element / field / variant counts, string and byte lengths, several bodies per value; (every decode also runs with the OWNED hints deserialize_string / deserialize_byte_buf and must give the same result); op lines `rt <type> <value>` generated from one PRNG seed: exhaustive bool/u8/i8 (+u16/i16/char in thorough), per-width boundary sets, float classes, length/variant-index boundaries, the 29-kind corpus, random type trees (depth<=5) with well-typed values; every encode entry point (to_allocvec/stdvec/slice/vec/extend/io/size) and every decode entry point (from_bytes/take_from_bytes/from_io) is run per case; non-trivial = distinct op line whose encoding is >= 2 bytes",
         "nontrivial": lambda op, a: _enc_len(a) >= 2,
@@ -98,6 +99,7 @@ PROPS = {
         "assumptions": ["usize = 64 bits (host)"],
     },
     "C03": {
+        "alt_config": {"ops": ["de"], "stride": 25},
         "gens": ["C03"],
         "rule": "SCALE LADDER (sizes 15..1025 around every power of two; thorough to 4097): nesting depth for each wrapper kind and mixed, element / field / variant counts, string and byte lengths, several bodies per value; each scale value as valid encoding, with a trailing byte, cut short, and with one flipped bit; op lines `de <type> <bytes>`: all byte strings of length <= 2 against 28 leaf/small types (strided in quick), max-length varints with every last byte per width, all u16 strings of length 3 (strided in quick), adversarial UTF-8 for char/str, and for random shapes: valid encodings, their strict prefixes, byte/bit corruptions, varint re-paddings, huge length prefixes, random bytes; compared on accept/reject, value, remainder and the error kinds the property names (others projected to `other`); non-trivial = distinct op line with >= 1 input byte",
         "nontrivial": lambda op, a: not op.endswith(" x"),
@@ -208,6 +210,7 @@ PROPS = {
         "assumptions": ["usize = 64 bits"],
     },
     "C13": {
+        "alt_config": {"ops": ["fix"]},
         "gens": ["C13"],
         "rule": "every `fix` case also goes through to_slice / to_vec / to_io / serialized_size and from_bytes / from_io / from_eio with an EMPTY scratch buffer (whole and 1-byte reads) / COBS / CRC; `fix <le|be> <type> <int>`: a struct field with #[serde(with = postcard::fixint::le|be)] for all 8 types x 2 orders: boundary sets, every single-byte-nonzero pattern, random values, u16/i16 strided (entire domain in thorough); oracle: bytes = to_le_bytes/to_be_bytes, decodes back with the remainder intact; non-trivial = distinct op line",
         "nontrivial": lambda op, a: True,
@@ -233,6 +236,7 @@ PROPS = {
         "assumptions": ["CrcModifier has no IndexMut, so COBS-inside-CRC is the only two-modifier stack the crate admits"],
     },
     "C14": {
+        "alt_config": {"ops": [], "schemaops": True},
         "gens": ["C14"],
         "derive_programs": {"quick": 30, "thorough": 200},
         "derive_kind": "schema",
